@@ -226,3 +226,29 @@ M("C13", "execute-block-attached-when-empty", F, "                if value:\n   
 M("C13", "beacon-gate-attached-when-empty", F, "            elif setting == BeaconSetting.SETTING_BEACON_GATE and value:", "            elif setting == BeaconSetting.SETTING_BEACON_GATE:", "C13.R6")
 T("C13", "twin-execute-guard-early-continue", F, "                if value:\n                    proc_inj.set_config_block(\"execute\", exec_options)\n",
   "                if not value:\n                    continue\n                proc_inj.set_config_block(\"execute\", exec_options)\n")
+
+# ------------------------------------------------------------------------------------------------ symbolic-argument forms
+# (the rules specialise per vocabulary member and keep the entry's argument symbolic: these entries exercise the term
+# classification, the text lemmas and the nullness case analysis)
+T("C13", "twin-headers-emitted-unconditionally", F, _GET_HEADERS, "                http_get_client._pair(\"header\", headers)\n")
+T("C13", "twin-executor-consumer-split", F,
+  "                        option, _, val = item.partition(\" \")\n                        val = val[1:-1]\n",
+  "                        option, val = item.split(\" \", 1)\n                        val = val[1:-1]\n")
+T("C13", "twin-executor-consumer-startswith", F,
+  "                        if option == \"CreateThread\":\n                            exec_options.set_option(\"createthread_special\", val)\n",
+  "                        if item.startswith(\"CreateThread \"):\n                            exec_options.set_option(\"createthread_special\", val)\n")
+T("C13", "twin-executor-producer-fstring", B,
+  "            ret.append('{} \"{}\"'.format(inject.name.rstrip(\"_\"), s))\n",
+  "            ret.append(f'{inject.name.rstrip(\"_\")} \"{s}\"')\n")
+M("C13", "executor-producer-no-space", B,
+  "            ret.append('{} \"{}\"'.format(inject.name.rstrip(\"_\"), s))\n",
+  "            ret.append('{}\"{}\"'.format(inject.name.rstrip(\"_\"), s))\n", "C13.R3")
+M("C13", "post-args-str-codec", F, _POST_TAIL, "                        block_steps[_build].append((k.lower(), str(v, \"latin-1\")))\n", "C13.R4")
+M("C13", "post-args-dropped", F, _POST_TAIL, "                        block_steps[_build].append((k.lower(), \"\"))\n", "C13.R5")
+M("C13", "post-flag-step-not-lowered", F, "                    elif v is True:\n                        block_steps[_build].append(k.lower())\n                    else:\n                        # log.debug",
+  "                    elif v is True:\n                        block_steps[_build].append(k)\n                    else:\n                        # log.debug", "C13.R5")
+M("C13", "post-build-ignored", F, "                    elif k == \"BUILD\":\n                        _build = v\n                    elif v is True:\n                        block_steps[_build].append(k.lower())\n                    else:\n                        # log.debug",
+  "                    elif k == \"BUILD\":\n                        _build = \"output\"\n                    elif v is True:\n                        block_steps[_build].append(k.lower())\n                    else:\n                        # log.debug", "C13.R5")
+M("C13", "add-step-skips-empty-argument", F, _ADD_STEP, _ADD_STEP.replace("if value is not None:", "if value is not None and value != \"\":"), "C13.R8")
+T("C13", "twin-add-step-none-compared-first", F, _ADD_STEP, _ADD_STEP.replace("if value is not None:", "if not (value is None):"))
+M("C13", "dns-value-replaced", F, "                dns_beacon.set_option(\"get_a\", value)", "                dns_beacon.set_option(\"get_a\", \"get_a\")", "C13.R5")
